@@ -53,7 +53,7 @@ Theorem C14_default_auth_rule : forall op default q,
   effective_auth op default q =
   match op with
   | Some w => w q
-  | None => match default, get_header s_authorization q with
+  | None => match default, raw_header s_authorization q with
             | Some d, [] => d q
             | _, _ => q
             end
